@@ -3,7 +3,10 @@
 d=$1; tier=$2; shift 2
 wt=$(mktemp -d /tmp/chkmut.XXXXXX)
 git -C /repo worktree add --detach $wt HEAD >/dev/null 2>&1 || { echo "worktree failed"; exit 2; }
-(cd $wt && git apply $d/patch.diff) || { echo "patch does not apply"; git -C /repo worktree remove --force $wt; exit 2; }
+(cd $wt && git apply $d/patch.diff) || { echo "patch does not apply"; git -C /repo worktree remove --force $wt
+# the private Lean project copy / output directory the harness made for this scratch tree
+h=$(python3 -c "import hashlib,os,sys;print(hashlib.sha1(os.path.realpath(sys.argv[1]).encode()).hexdigest()[:12])" $wt)
+rm -rf /tmp/fast_ticc_verif_lean_$h /tmp/fast_ticc_verif_lean_$h.lock /tmp/fast_ticc_verif_out_$h 2>/dev/null; exit 2; }
 cd /verif
 for p in "$@"; do
   out=$(REPO=$wt ./check $p --tier $tier 2>&1); e=$?
@@ -13,4 +16,7 @@ for p in "$@"; do
   echo "$p exit=$e ${v:+[$(echo $v | grep -o 'no-failing-input-found')]} $what"
 done
 git -C /repo worktree remove --force $wt
+# the private Lean project copy / output directory the harness made for this scratch tree
+h=$(python3 -c "import hashlib,os,sys;print(hashlib.sha1(os.path.realpath(sys.argv[1]).encode()).hexdigest()[:12])" $wt)
+rm -rf /tmp/fast_ticc_verif_lean_$h /tmp/fast_ticc_verif_lean_$h.lock /tmp/fast_ticc_verif_out_$h 2>/dev/null
 
